@@ -987,10 +987,22 @@ func (i *Interpreter) ApplyTypeDefaults(obj map[string]interface{}, typeDef Type
 	return result, nil
 }
 
+// newFunctionEnvironment returns the scope a function body runs in: a child of
+// the global scope that counts evaluation depth with the caller.
+func (i *Interpreter) newFunctionEnvironment(caller *Environment) *Environment {
+	fnEnv := NewChildEnvironment(i.globalEnv)
+	if caller != nil && caller.depth != nil {
+		fnEnv.depth = caller.depth
+	}
+	return fnEnv
+}
+
 // executeFunction executes a user-defined function
 func (i *Interpreter) executeFunction(fn Function, args []Expr, env *Environment) (interface{}, error) {
-	// Create a new environment for the function
-	fnEnv := NewChildEnvironment(env)
+	// Create a new environment for the function. Its parent is the global
+	// scope, not the caller's: a function sees its parameters, its own
+	// variables and the module's definitions.
+	fnEnv := i.newFunctionEnvironment(env)
 
 	// Count required parameters (those marked required without defaults)
 	requiredCount := 0
@@ -1119,8 +1131,8 @@ func (i *Interpreter) executeGenericFunction(fn Function, typeArgs []Type, args 
 		i.typeChecker.PopTypeScope(names)
 	}()
 
-	// Create a new environment for the function
-	fnEnv := NewChildEnvironment(env)
+	// Create a new environment for the function (see newFunctionEnvironment)
+	fnEnv := i.newFunctionEnvironment(env)
 
 	// Validate argument count
 	if len(argValues) != len(instantiatedFn.Params) {
@@ -1494,8 +1506,8 @@ func (i *Interpreter) callWithPipedArg(fn interface{}, pipedVal interface{}, ext
 
 // executeFunctionWithValues executes a user-defined function with pre-evaluated argument values
 func (i *Interpreter) executeFunctionWithValues(fn Function, argVals []interface{}, env *Environment) (interface{}, error) {
-	// Create a new environment for the function
-	fnEnv := NewChildEnvironment(env)
+	// Create a new environment for the function (see newFunctionEnvironment)
+	fnEnv := i.newFunctionEnvironment(env)
 
 	// Count required parameters (those marked required without defaults)
 	requiredCount := 0
@@ -1697,7 +1709,7 @@ func (i *Interpreter) evaluateResultMethod(result *ResultValue, method string, a
 func (i *Interpreter) callFnArg(fn interface{}, arg interface{}, env *Environment) (interface{}, error) {
 	switch f := fn.(type) {
 	case Function:
-		fnEnv := NewChildEnvironment(env)
+		fnEnv := i.newFunctionEnvironment(env)
 		if len(f.Params) > 0 {
 			fnEnv.Define(f.Params[0].Name, arg)
 		}
